@@ -415,3 +415,46 @@ def run_echo_piv(run, P):
             return None
         solve(f, Env(), on_event, None, keys, R, key_fn=lambda e: (e.ts.get('echo', ()), tuple(e.nullf(v) for v in sorted(condvars))))
     run.require(n >= 1 or run.fixture_mode or run.cfg != 'base', 'R-SSN-ORDER(Echo): no function that adds an Echo option and protects the PDU found')
+
+
+def run_ctx_siblings(run, P):
+    """R-REPLAY-MUST (context constructors agree): a security context is built in two places -- from the configuration (the function that
+    assigns fields of the context record from fields of coap_oscore_conf_t) and as a copy of an existing context with a new ID Context
+    (Appendix B.2: the function that assigns fields of a fresh context record from the same fields of another context).  Every field the
+    first takes from the configuration, the second copies: a setting that is silently left at zero in the copy switches a protection off
+    for exactly the contexts that B.2 negotiates (rfc8613_b_1_2 = 0 there means the replay window of the new context is never armed)."""
+    run.rule('R-REPLAY-MUST')
+    REC, CONF = 'oscore_ctx_t', 'coap_oscore_conf_t'
+    from_conf, copies = {}, {}
+    for f in P.lib_funcs():
+        fc, cp = {}, {}
+        for b, ev in P.events(f):
+            t = ev['e']
+            if t.get('k') != 'asg' or t.get('op') != '=':
+                continue
+            l = strip(t['l'])
+            if not (isinstance(l, dict) and l.get('k') == 'mem' and l.get('rec') == REC):
+                continue
+            if any(isinstance(y, dict) and y.get('k') == 'mem' and y.get('rec') == CONF for y in walk(t['r'])):
+                fc[l['f']] = ev['loc']
+            for y in walk(t['r']):
+                if isinstance(y, dict) and y.get('k') == 'mem' and y.get('rec') == REC and y.get('f') == l['f'] and ap(y.get('b')) != ap(l.get('b')):
+                    cp[l['f']] = ev['loc']
+        if len(fc) >= 4:
+            from_conf[f['name']] = fc
+        if len(cp) >= 4:
+            copies[f['name']] = (cp, set(strip(ev['e']['l'])['f'] for b, ev in P.events(f) if ev['e'].get('k') == 'asg' and isinstance(strip(ev['e']['l']), dict)
+                                         and strip(ev['e']['l']).get('k') == 'mem' and strip(ev['e']['l']).get('rec') == REC))
+    run.require((from_conf and copies) or run.fixture_mode or run.cfg != 'base', 'R-REPLAY-MUST(context constructors): constructor from configuration %s / copying constructor %s not found' % (sorted(from_conf), sorted(copies)))
+    for cn, fc in sorted(from_conf.items()):
+        for dn, (cp, assigned) in sorted(copies.items()):
+            if cn == dn:
+                continue
+            for fld, loc in sorted(fc.items()):
+                run.instance('R-REPLAY-MUST', '%s copies %s, which %s takes from the configuration' % (dn, fld, cn))
+                ok = fld in assigned
+                run.oblige('R-REPLAY-MUST', ok, '%s:copies:%s' % (dn, fld))
+                if not ok:
+                    run.violation('R-REPLAY-MUST', dn, P.func(dn)['loc'], 'context-copy-drops-setting:%s' % fld,
+                                  '%s() takes %s from the configuration (%s) but %s(), which builds the context that Appendix B.2 negotiates as a copy, never assigns it: the '
+                                  'copy runs with that setting at zero' % (cn, fld, loc.rsplit('/', 1)[-1], dn), [])
